@@ -226,6 +226,9 @@ class StreamScenario:
             if rng.random() < 0.15: ps.append((0x27, rng.choice([64, 200])))
             if rng.random() < 0.15: ps += [(0x26, (b"k", b"v")), (0x26, (b"k", b"w"))]
             if self.auth: ps += [(0x15, b"m")] + ([(0x16, b"fin")] if rng.random() < 0.5 else [])
+            # now and then a CONNACK far larger than the handshake buffer starts with (reason string / many user properties)
+            if rng.random() < 0.15: ps.append((0x1F, b"r" * rng.choice([250, 300, 1000, 5000]))); self.count("connack-large")
+            if rng.random() < 0.05: ps += [(0x26, (b"key%d" % i, b"v" * 20)) for i in range(rng.choice([12, 40]))]; self.count("connack-many-user-properties")
             s["ok"] = True
             self.count("connack-ok"); return ref.e_connack(sp, 0, ps)
         s["ok"] = False
